@@ -138,6 +138,25 @@ def optsOfCli (km : KeyMode) (am : AliasMode) (refnames expand fslash : Bool) : 
     expand := expand
     fslash := fslash }
 
+/-- `PathSeparators`, the value `--pathsep` (argparse `type=PathSeparators.from_str`: `auto`, `dot` / `.`,
+`fslash` / `/`) hands to `search_for_paths` -/
+inductive Sep | auto | dot | fslash
+  deriving DecidableEq, Repr, Inhabited
+
+/-- All the search (and `escape_path_section`) asks of its separator is `pathsep is PathSeparators.FSLASH` and
+`str(pathsep)`; `PathSeparators.__str__` answers `/` for FSLASH and `.` for everything else, so AUTO renders dot
+notation with every rule of dot notation (the leading-slash protection of `escape_path_section` included). -/
+def Sep.isFslash : Sep → Bool
+  | .fslash => true
+  | _ => false
+
+/-- the options of a search run with the separator `s` -/
+def Opts.withSep (o : Opts) (s : Sep) : Opts := { o with fslash := s.isFslash }
+
+/-- the option handling of `main()`, the separator as `--pathsep` delivers it -/
+def optsOfCliSep (km : KeyMode) (am : AliasMode) (refnames expand : Bool) (s : Sep) : Opts :=
+  optsOfCli km am refnames expand s.isFslash
+
 /-! ## `Searches.search_anchor` -/
 
 /-- `AnchorMatches` -/
